@@ -144,7 +144,10 @@ class Cross(Constraint):
             # We exclude any combination that is dsiallowed by implicit or explicit exlcusions.
             level_lists = [list(f.levels) for f in c]
             crossings = [{level.factor: level for level in levels} for levels in product(*level_lists)]
-            trial_combinations = list(filter(lambda c: not block.is_excluded_or_inconsistent_combination(c), crossings))
+            impossible = block.excluded_combinations(c)
+            trial_combinations = list(filter(lambda c: not block.is_excluded_or_inconsistent_combination(c)
+                                             and tuple(c.values()) not in impossible,
+                                             crossings))
             crossing_combinations = [[block.encode_combination(c, t) for c in trial_combinations] for t in crossing_trials]
             # Each trial is now represented in `crossing_factors` by a list
             # of potential level combinations, where each level combination is represented
